@@ -146,6 +146,33 @@ def fast_selfwait():
     _FAST = True
 
 
+def find_worker(sim):
+    """the simulator's run thread: by its private name, else among the live threads (a rename must not matter)"""
+    w = getattr(sim, "_Simulator__worker", _MISSING)
+    if w is not _MISSING:
+        return w
+    from pydsol.core.simulator import SimulatorWorkerThread
+    for t in threading.enumerate():
+        if isinstance(t, SimulatorWorkerThread) and t.is_alive() and any(v is sim for v in vars(t).values()):
+            return t
+    return None
+
+
+def wait_idle(sim, timeout=20.0):
+    """wait until the run thread is parked or has finished (never poll run_state alone)"""
+    t0 = _time.time()
+    while _time.time() - t0 < timeout:
+        w = find_worker(sim)
+        if w is None or w.is_finalized() or not w.is_alive():
+            if w is not None:
+                w.join(10.0)
+            return True
+        if w.is_waiting():
+            return True
+        _time.sleep(0.0005)
+    return False
+
+
 def user_event_class():
     global _UEC
     if _UEC is None:
